@@ -16,7 +16,7 @@ RULE = ("(1) symbol audit, exhaustive over object files x configurations {x86-64
         "defined inside the library; (2) write-protection monitor: after loading, every writable segment of the library image is made read-only and the complete "
         "quick call alphabets of the other properties are executed - any store to library-global state faults; (3) schedule exploration on the real code: 2 real "
         "threads (3 in the thorough tier), each running one operation of a 45-entry menu covering every source file (field, curve, pairing, sampling, WKD-IBE and LQ-IBE operations; the caller's hash callback is an explicit scheduling point), on shared const inputs and distinct outputs; "
-        "scheduling points = compiler-inserted function-entry hooks at call depth <= D; ALL schedules with <= B preemptions are executed (B iterated 0,1,2) and each "
+        "scheduling points = compiler-inserted function-entry hooks at call depth <= D; ALL schedules with <= B preemptions are executed (B iterated 0,1,2; 3 for every small operation against itself in the thorough tier) and each "
         "thread's output must equal the sequential result; recorded schedules replay deterministically; (4) free-running ThreadSanitizer pass of the same operation "
         "bodies on 16 threads. states = executions (schedules); transitions = scheduling points visited; non-trivial = schedule with at least one preemption")
 ASSUMPTIONS = ["the scheduler serialises threads (sequential consistency); the library contains no atomics or fences, so data races are the only weaker-memory concern "
@@ -203,9 +203,14 @@ def pairs_for(tier):
             out.append((a, a, 1, 2))
     for a, b in EXTRA_PAIRS:
         out.append((a, b, 1, 1))
+    if tier == "thorough":
+        # three preemptions for every small operation against itself (the shared-scratch conflict needs the two threads inside the
+        # same function; a third switch lets the first thread resume in the middle of the second one's use)
+        for a in small:
+            out.append((a, a, 3, 2))
     seen = {}
     for t in out:
-        seen.setdefault((t[0], t[1]), t)
+        seen.setdefault((t[0], t[1], t[2]) if t[2] == 3 else (t[0], t[1]), t)
     return list(seen.values())
 
 
@@ -220,7 +225,7 @@ def shards(ctx):
     cum = calibrate()
     t2, t1 = (70, 1500) if ctx.tier == "quick" else (160, 6000)
     for a, b, bound, _ in pairs_for(ctx.tier):
-        tgt = t2 if bound == 2 else t1
+        tgt = {1: t1, 2: t2, 3: 36}[bound]
         (da, na), (db, nb) = depth_for(cum, a, tgt), depth_for(cum, b, tgt)
         out.append({"sub": "explore", "ops": [a, b], "bound": bound, "depth": "%d,%d" % (da, db), "points": [na, nb]})
     if ctx.tier == "thorough":
@@ -278,7 +283,7 @@ def replay(ctx, case):
 
 def finish(merged, cov):
     o = merged.outcomes
-    for need in ["audit:" + c for c in AUDIT_CONFIGS] + ["tsan-free-running", "schedule:bound2", "schedule:bound1", "writeprotect:C05"]:
+    for need in ["audit:" + c for c in AUDIT_CONFIGS] + ["tsan-free-running", "schedule:bound2", "schedule:bound1", "writeprotect:C05"] + (["schedule:bound3"] if merged.tier == "thorough" else []):
         if not o.get(need):
             return "class %s never exercised" % need
     cov["states"] = merged.extra.get("schedules", 0)
